@@ -16,9 +16,12 @@ Record env := Env {
   e_vetoat : nat;       (* 1-based index, in registration order, of the first BeforeChange listener that returns an
                            error for this change; 0 = none does (badgerstore only has them).  At most the number
                            of registered listeners. *)
-  e_newid : id          (* what Store.NewID() returns if it is called (mockstore only) *)
+  e_newid : id;         (* what Store.NewID() returns if it is called (mockstore only) *)
+  e_unenc : bool        (* the value has the store's type but cannot be encoded: json.Marshal / MarshalBinary
+                           returns an error (NaN, Inf, func, chan, failing MarshalJSON ...).  badgerstore encodes
+                           inside the transaction AFTER the BeforeChange listeners; mockstore never encodes. *)
 }.
-Definition env0 : env := Env false 0%nat [].
+Definition env0 : env := Env false 0%nat [] false.
 (* some BeforeChange callback returns an error for this change *)
 Definition e_veto (e : env) : bool := negb (Nat.eqb (e_vetoat e) 0).
 
@@ -39,6 +42,7 @@ Inductive result :=
 | EType               (* "... value is of type %s, expected type %s" *)
 | EVeto               (* the BeforeChange callback's error *)
 | RPanic              (* mockstore: "callback NewID returned empty string" *)
+| EEncode             (* the encoder's error (json: unsupported value / type, error calling MarshalJSON) *)
 | EOther.             (* any other error (none is produced by the current code on these inputs) *)
 
 (* one OnChange invocation: id, value before (None = Go nil), value after *)
@@ -70,6 +74,7 @@ Definition bstep (pfx : bytes) (st : kvstate) (o : op) : kvstate * result * list
            | Some _ => (st, EDuplicate, [])
            | None =>
                if e_veto e then (st, EVeto, [])          (* callBeforeChange inside DB.Update: nothing written *)
+               else if e_unenc e then (st, EEncode, [])  (* setValue: marshal error aborts the transaction *)
                else (aset (bkey pfx i) v st, ROk, [(i, None, Some v)])
            end
   | OUpdate i v e =>
@@ -78,6 +83,7 @@ Definition bstep (pfx : bytes) (st : kvstate) (o : op) : kvstate * result * list
            | None => (st, ENotFound, [])
            | Some b =>
                if e_veto e then (st, EVeto, [])
+               else if e_unenc e then (st, EEncode, [])
                else (aset (bkey pfx i) v st, ROk, [(i, Some b, Some v)])
            end
   | ODelete i e =>
@@ -162,6 +168,7 @@ Definition bstep_v0 (pfx : bytes) (st : kvstate) (o : op) : kvstate * result * l
            | inl None => (st, ENotFound, [])
            | inl (Some b) =>
                if e_veto e then (st, EVeto, [])
+               else if e_unenc e then (st, EEncode, [])
                else (aset (bkey pfx i) v st, ROk, [(i, Some b, Some v)])
            end
   | ODelete i e =>
